@@ -755,7 +755,10 @@ func runHistoryEx(h History, scale, failAt, mapVar int, reexec bool) (tr *trace)
 				cerr = fmt.Errorf("open parent: %v", err)
 				return
 			}
-			execBlock(sh, blk.Ops, h.Fin)
+			// (mutations only: the finalisation calls of the variant mark objects as deleted, after which
+			// the getters of this AccountDB are no longer total -- GetBalance dereferences nil once the
+			// balance-keeping account object was created empty and finalised)
+			execBlock(sh, blk.Ops, "")
 			skip := snap.dead
 			if f, d := compareAPIEx(sh, snap, &skip); f != "" {
 				guard = fmt.Sprintf("block %d %s: %s", bi, f, d)
